@@ -71,7 +71,7 @@ def gen_cqm_ops(rng, nops):
             continue
         labels = list(range(n))
         k = rng.choice(["e.addlin", "e.addlin", "e.setlin", "e.addq", "e.addq", "e.addq", "e.addq", "e.setq", "e.off",
-                        "e.remint", "e.remvar", "e.remvars", "e.fix", "e.subst", "e.scale", "e.clear", "e.attr",
+                        "e.remint", "e.remvar", "e.remvars", "e.fix", "e.subst", "e.scale", "e.clear", "e.attr", "e.addqb", "e.addqb",
                         "e.energy", "e.disjoint", "addcon", "newcon", "newcon", "addcon_qm", "addcon_qm", "setobj",
                         "addlincon", "remcon", "remcons_if", "remvar", "remvar", "fix", "fix", "fixvars", "fixvars", "fixvars_rich",
                         "fixvars_rich", "block", "subst",
@@ -89,6 +89,26 @@ def gen_cqm_ops(rng, nops):
             if u == v and n > 1 and rng.random() < 0.7:
                 v = rng.choice([x for x in labels if x != u])
             ops.append(["cq.e.addq" if k == "e.addq" else "cq.e.setq", s, ke, u, v, str(small(rng))])
+        elif k == "e.addqb":
+            # Expression::add_quadratic_back: labels taken in random (not parent) order so that the internal
+            # order differs from the parent's; a label new to the expression gets the largest internal index,
+            # so (x, earlier ones in internal order) and then (x, x) keep the append-at-the-back promise; the
+            # exact promise is re-checked against the dumped state by the filter
+            if rng.random() < 0.6:
+                ops.append(["cq.addcon", s])
+                ke2 = nc[s]
+                nc[s] += 1
+            else:
+                ke2 = ke
+            blk = rng.sample(labels, rng.randint(1, min(5, n)))
+            for i, x in enumerate(blk):
+                for y in blk[:i]:
+                    if rng.random() < 0.6:
+                        ops.append(["cq.e.addqb", s, ke2, x, y, str(small(rng))])
+                if rng.random() < 0.7:
+                    ops.append(["cq.e.addqb", s, ke2, x, x, str(small(rng))])
+                if rng.random() < 0.3:
+                    ops.append(["cq.e.addlin", s, ke2, x, str(small(rng))])
         elif k == "e.off":
             ops.append([rng.choice(["cq.e.addoff", "cq.e.setoff"]), s, ke, str(small(rng))])
         elif k == "e.remint":
@@ -384,6 +404,20 @@ def _cqm_op_valid(op, cqms):
             return inr(b[0], nv) and len(b) == 2
         if sub in ("addq", "setq"):
             return inr(b[0], nv) and inr(b[1], nv) and len(b) == 3
+        if sub == "addqb":
+            if not (inr(b[0], nv) and inr(b[1], nv) and len(b) == 3):
+                return False
+            e = c["obj"] if ke < 0 else c["cons"][ke]
+            vars_, adj = list(e["vars"]), [list(x) for x in e["adj"]]
+            # enforce_variable(v) runs before enforce_variable(u) in the GCC build used for these cases
+            for x in (b[1], b[0]):
+                if x not in vars_:
+                    vars_.append(x)
+                    adj.append([])
+            iu, iv = vars_.index(b[0]), vars_.index(b[1])
+            lu = adj[iu][-1][0] if adj[iu] else -1
+            lv = adj[iv][-1][0] if adj[iv] else -1
+            return lu < iv and lv < iu
         if sub in ("addoff", "setoff", "scale", "rhs"):
             return len(b) == 1
         if sub == "remint":
@@ -591,7 +625,7 @@ def coq_qop(op, prev):
             return M([f"(MEdit {t} (EAddLinear {_cnat(b[0])} {_q(b[1])}))"])
         if sub == "setlin":
             return M([f"(MEdit {t} (ESetLinear {_cnat(b[0])} {_q(b[1])}))"])
-        if sub == "addq":
+        if sub in ("addq", "addqb"):      # under its ordering promise add_quadratic_back is add_quadratic
             return M([f"(MEdit {t} (EAddQuadratic {_cnat(b[0])} {_cnat(b[1])} {_q(b[2])}))"])
         if sub == "addoff":
             return M([f"(MEdit {t} (EAddOffset {_q(b[0])}))"])
@@ -610,7 +644,11 @@ def coq_qop(op, prev):
         if sub in ("sense", "rhs", "weight", "disc", "energy", "disjoint"):
             return "QNop"       # attributes / reads: not part of the compared state
         return None             # setq, fix, scale: no counterpart in ExprOps
-    return None                 # cq.fixvars, cq.remcons_if
+    if k == "cq.fixvars":
+        m = a[2]
+        return (f"(QFixVars {S} {_cnat(a[1])} {_clist([_cnat(v) for v in a[3:3 + m]])} "
+                f"{_clist([_q(x) for x in a[3 + m:3 + 2 * m]])})")
+    return None                 # cq.remcons_if
 
 
 def coq_eobs(e):
